@@ -502,7 +502,8 @@ static int _GD_Change(DIRFILE *D, const char *field_code, const gd_entry_t *N,
                 GD_FINIRAW_KEEP | GD_FINIRAW_CLOTEMP);
         }
       }
-      memcpy(Qe.u.raw.file, E->e->u.raw.file, sizeof(struct gd_raw_file_));
+      /* both of them: the temporary and out-of-place side has changed, too */
+      memcpy(Qe.u.raw.file, E->e->u.raw.file, sizeof(Qe.u.raw.file));
       Qe.u.raw.size = GD_SIZE(Q.EN(raw,data_type));
 
       break;
